@@ -182,7 +182,8 @@ func runC32(c *Ctx) {
 		}
 		c.requireAtAny("C32.proceed-after-proof", hn+" proceeds", nx[0].Instr, "verification succeeded ∨ no error in the response being sent",
 			wSame("VerifySignature error == nil", `\.VerifySignature\(.*#1$`, `^nil$`),
-			wSame("response error empty", `^phi\(.*\.Error$|\.Error$`, `^""$`))
+			wSame("response error empty", `^phi\(.*\.Error$|\.Error$`, `^""$`),
+			wEQ("response error empty (length form)", 0, t(1, `^len\(.*\.Error\)$`)))
 		if hn == "handleSignatureRequest" {
 			// the response sent on the failure arm carries an error
 			for _, b := range f.Blocks {
